@@ -273,7 +273,8 @@ func finiteMain(p FiniteParams) {
 	for s := uint64(1); s <= 4; s++ {
 		c.Append(1, marker(s, s), symbolPacket("M", s))
 	}
-	c.Append(2, marker(1, 5))
+	// (the last snapshot of vb2 reaches past the end of the finite run: writes went on while the run started)
+	c.Append(2, marker(1, 9))
 	for s := uint64(1); s <= 5; s++ {
 		c.Append(2, symbolPacket("M", s))
 	}
@@ -328,6 +329,16 @@ func finiteMain(p FiniteParams) {
 					vrt.Failf("finite mode: vb2 event %d was never delivered (got %v)", s, got)
 				}
 			}
+		}
+	}
+	// every delivered event carries the snapshot range the server announced for it (not one cut to the end of the run)
+	for _, d := range e.Cons.Events {
+		want := [2]uint64{d.Seq, d.Seq}
+		if d.Vb == 2 {
+			want = [2]uint64{1, 9}
+		}
+		if d.Snap != want {
+			vrt.Failf("finite mode: vb%d event %d carries the snapshot range %v, the server announced %v", d.Vb, d.Seq, d.Snap, want)
 		}
 	}
 	for _, r := range c.RequestsOf("openstream") {
